@@ -13,6 +13,8 @@ import (
 	"os"
 	"os/exec"
 	"path/filepath"
+	"strings"
+	"sync"
 	"time"
 
 	"github.com/practable/relay/verifharness/lib"
@@ -29,8 +31,8 @@ type childOut struct {
 func main() {
 	a := lib.ParseArgs()
 	log.SetOutput(ioutil.Discard)
-	if os.Getenv("VERIF_C19_CHILD") == "1" {
-		child(a)
+	if k := os.Getenv("VERIF_C19_CHILD"); k != "" {
+		child(a, k)
 		return
 	}
 	res := lib.NewResult("C19", a.Seed, a.Tier)
@@ -50,59 +52,97 @@ func main() {
 	if a.N > 0 {
 		args = append(args, "-n", fmt.Sprint(a.N))
 	}
-	cmd := exec.Command(os.Args[0], args...)
-	cmd.Env = append(os.Environ(), "VERIF_C19_CHILD=1")
-	errf, _ := os.Create(filepath.Join(a.Out, "child.stderr"))
-	cmd.Stderr = errf
-	cmd.Stdout = errf
-	done := make(chan error, 1)
-	if err := cmd.Start(); err != nil {
-		fmt.Fprintln(os.Stderr, err)
-		os.Exit(2)
-	}
-	go func() { done <- cmd.Wait() }()
-	var cerr error
-	frozen := false
-	select {
-	case cerr = <-done:
-	case <-time.After(budget):
-		frozen = true
-		_ = cmd.Process.Kill()
-		<-done
-	}
-	errf.Close()
-	var co childOut
-	b, rerr := os.ReadFile(filepath.Join(a.Out, "child.json"))
-	if rerr == nil {
-		rerr = json.Unmarshal(b, &co)
-	}
-	if frozen || cerr != nil || rerr != nil {
-		tail, _ := os.ReadFile(filepath.Join(a.Out, "child.stderr"))
-		if len(tail) > 3000 {
-			tail = tail[len(tail)-3000:]
-		}
-		what := "crashed"
-		if frozen {
-			what = "did not finish within the watchdog budget"
-		}
-		res.Violate(lib.Violation{Clause: "client-crashed-or-froze", Case: -1,
-			Detail: fmt.Sprintf("the process running the real reconws client %s (%v / %v): %s", what, cerr, rerr, string(tail)),
-			Replay: map[string]interface{}{"seed": a.Seed, "tier": a.Tier}, Key: "client-crashed-or-froze"})
-	}
-	coq := make([]string, len(co.Cases))
-	for i, c := range co.Cases {
-		coq[i] = c.coq()
-		res.Cases = append(res.Cases, c)
-		if c.Kind == "loop" {
-			res.Sample(c)
+	// two children, side by side: "1" runs the schedules, "reuse" (at logrus trace level) re-uses one client
+	// object over several rounds - a panic there must not take the other results with it
+	kinds := []string{"1", "reuse"}
+	if a.Replay != "" {
+		var rc Case
+		lib.ReadReplayCase(a.Replay, &rc)
+		if rc.Kind == "" || rc.Reuse != "" {
+			kinds = []string{"reuse"}
+		} else {
+			kinds = []string{"1"}
 		}
 	}
-	res.Violations = append(res.Violations, co.Violations...)
-	for k, v := range co.Distribution {
-		res.Distribution[k] = v
+	outs := make([]childOut, len(kinds))
+	var wg sync.WaitGroup
+	var vmu sync.Mutex
+	for k, kind := range kinds {
+		wg.Add(1)
+		go func(k int, kind string) {
+			defer wg.Done()
+			cmd := exec.Command(os.Args[0], args...)
+			cmd.Env = append(os.Environ(), "VERIF_C19_CHILD="+kind)
+			errPath := filepath.Join(a.Out, "child-"+kind+".stderr")
+			errf, _ := os.Create(errPath)
+			cmd.Stderr = errf
+			cmd.Stdout = errf
+			done := make(chan error, 1)
+			if err := cmd.Start(); err != nil {
+				fmt.Fprintln(os.Stderr, err)
+				os.Exit(2)
+			}
+			go func() { done <- cmd.Wait() }()
+			var cerr error
+			frozen := false
+			select {
+			case cerr = <-done:
+			case <-time.After(budget):
+				frozen = true
+				_ = cmd.Process.Kill()
+				<-done
+			}
+			errf.Close()
+			b, rerr := os.ReadFile(filepath.Join(a.Out, "child-"+kind+".json"))
+			if rerr == nil {
+				rerr = json.Unmarshal(b, &outs[k])
+			}
+			if frozen || cerr != nil || rerr != nil {
+				tail, _ := os.ReadFile(errPath)
+				if i := strings.Index(string(tail), "panic:"); i >= 0 && len(tail)-i > 1500 {
+					tail = tail[i : i+1500]
+				} else if len(tail) > 3000 {
+					tail = tail[len(tail)-3000:]
+				}
+				what := "crashed"
+				if frozen {
+					what = "did not finish within the watchdog budget"
+				}
+				clause, where := "client-crashed-or-froze", "the process running the real reconws client against the scripted servers"
+				if kind == "reuse" {
+					clause, where = "reused-client-crashed-or-froze", "the process that connects, cancels and connects again the SAME reconws.ReconWs / client.Client / status.Status object (several rounds)"
+				}
+				vmu.Lock()
+				res.Violate(lib.Violation{Clause: clause, Case: -1,
+					Detail: fmt.Sprintf("%s %s (%v / %v): %s", where, what, cerr, rerr, string(tail)),
+					Replay: map[string]interface{}{"seed": a.Seed, "tier": a.Tier, "reuse": kind}, Key: clause})
+				vmu.Unlock()
+			}
+		}(k, kind)
 	}
-	res.Notes = append(res.Notes, co.Notes...)
-	res.Evaluations = len(co.Cases)
+	wg.Wait()
+	var coq []string
+	for _, co := range outs {
+		off := len(res.Cases)
+		for _, c := range co.Cases {
+			coq = append(coq, c.coq())
+			res.Cases = append(res.Cases, c)
+			if c.Kind == "loop" {
+				res.Sample(c)
+			}
+		}
+		for _, v := range co.Violations {
+			if v.Case >= 0 {
+				v.Case += off
+			}
+			res.Violations = append(res.Violations, v)
+		}
+		for k, v := range co.Distribution {
+			res.Distribution[k] += v
+		}
+		res.Notes = append(res.Notes, co.Notes...)
+	}
+	res.Evaluations = len(res.Cases)
 	if _, err := lib.WriteShards(a.Out, "From Relay Require Import Base.Prelude Model.Reconws Corr.C19.", "case", coq, res.ShardSize); err != nil {
 		fmt.Fprintln(os.Stderr, err)
 		os.Exit(2)
@@ -113,11 +153,25 @@ func main() {
 	}
 }
 
-func child(a lib.Args) {
+func child(a lib.Args, kind string) {
 	out := childOut{Distribution: map[string]int{}}
 	rng := lib.NewRng(a.Seed)
 	var cases []Case
-	if a.Replay != "" {
+	if kind == "reuse" {
+		// this child also runs at logrus trace level (output discarded): logging must not change behaviour
+		log.SetLevel(log.TraceLevel)
+		rr := lib.NewRng(a.Seed ^ 0x5eed)
+		cases = genReuseCases(rr, a.Pick(3, 5))
+		if a.Replay == "" {
+			extra := genLoopCases(rr, a.Pick(8, 36), false)
+			for _, c := range extra {
+				if c.Stay == 0 && len(c.Sched) < 20 && c.stopAllowance() < 20*time.Second {
+					c.Note = "trace-level"
+					cases = append(cases, c)
+				}
+			}
+		}
+	} else if a.Replay != "" {
 		var c Case
 		lib.ReadReplayCase(a.Replay, &c)
 		cases = []Case{c}
@@ -141,6 +195,17 @@ func child(a lib.Args) {
 		case "loop":
 			oracleLoop(c, i, &out)
 			out.Distribution["loop:"+c.Loop]++
+			if c.Reuse != "" {
+				out.Distribution["reuse-rounds:"+c.Reuse]++
+			}
+			if c.Note != "" {
+				out.Distribution["loglevel:"+c.Note]++
+			}
+			for k, s := range c.Sched {
+				if k <= c.Cancel.I && s.H != "" {
+					out.Distribution["reply-extra:"+s.H]++
+				}
+			}
 			if c.Via != "" {
 				out.Distribution["via:pkg/"+c.Via]++
 			}
@@ -187,7 +252,7 @@ func child(a lib.Args) {
 	}
 	out.Cases = cases
 	b, _ := json.Marshal(out)
-	if err := os.WriteFile(filepath.Join(a.Out, "child.json"), b, 0o644); err != nil {
+	if err := os.WriteFile(filepath.Join(a.Out, "child-"+kind+".json"), b, 0o644); err != nil {
 		fmt.Fprintln(os.Stderr, err)
 		os.Exit(2)
 	}
